@@ -181,14 +181,15 @@ class CompGen:
                 r = rng.random()
                 names = list(self.seqs)
                 sups = [x for x in names if self.seqs[x]["sup"]]
-                if r < 0.14:
+                after_sup = any(it["t"] != "nuc" and self.seqs[it["name"]]["sup"] and self.seqs[it["name"]]["len"] > 0 for it in items)
+                if r < (0.3 if after_sup else 0.14):
                     # anonymous quoted region
                     L = 0 if rng.random() < 0.1 else rng.randint(1, 5)
                     parts = [[L, "N" if rng.random() < 0.7 else rng.choice(CODES)]]
                     if rng.random() < 0.3 and L > 1:
                         k = rng.randint(0, L)
                         parts = [[k, parts[0][1]], [L - k, rng.choice(CODES)]]
-                    if wild_at is None and rng.random() < self.wild_prob:
+                    if wild_at is None and rng.random() < (0.6 if after_sup else self.wild_prob):
                         parts[rng.randrange(len(parts))][0] = "?"
                         wild_at = len(items)
                     text = spell_parts(rng, parts)
